@@ -19,10 +19,19 @@ pub struct AOp {
     pub arg: usize,
     pub ret: usize,
     pub order: Ordering,
+    /// value of the word before and after the operation (equal for loads, fences, failed CAS)
+    pub old: usize,
+    pub new: usize,
 }
 impl AOp {
+    /// a write that CHANGED the value of the word. A compare_exchange(1, 1), a fetch_add(0) or a
+    /// store of the value already there write nothing a property could observe.
     pub fn is_rmw(&self) -> bool {
-        matches!(self.kind, AKind::Rmw(_) | AKind::Cas | AKind::Store)
+        matches!(self.kind, AKind::Rmw(_) | AKind::Cas | AKind::Store) && self.old != self.new
+    }
+    /// signed change of the value
+    pub fn delta(&self) -> isize {
+        self.new.wrapping_sub(self.old) as isize
     }
 }
 
@@ -34,12 +43,13 @@ fn push(op: AOp) {
 }
 fn l_load(a: &AtomicUsize, o: Ordering) -> usize {
     let r = a.load(o);
-    push(AOp { kind: AKind::Load, addr: a as *const _ as usize, arg: 0, ret: r, order: o });
+    push(AOp { kind: AKind::Load, addr: a as *const _ as usize, arg: 0, ret: r, order: o, old: r, new: r });
     r
 }
 fn l_store(a: &AtomicUsize, v: usize, o: Ordering) {
+    let old = a.load(Ordering::Relaxed);
     a.store(v, o);
-    push(AOp { kind: AKind::Store, addr: a as *const _ as usize, arg: v, ret: 0, order: o });
+    push(AOp { kind: AKind::Store, addr: a as *const _ as usize, arg: v, ret: 0, order: o, old, new: v });
 }
 pub fn do_rmw(k: Rmw, a: &AtomicUsize, v: usize, o: Ordering) -> usize {
     match k {
@@ -55,17 +65,31 @@ pub fn do_rmw(k: Rmw, a: &AtomicUsize, v: usize, o: Ordering) -> usize {
 }
 fn l_rmw(k: Rmw, a: &AtomicUsize, v: usize, o: Ordering) -> usize {
     let r = do_rmw(k, a, v, o);
-    push(AOp { kind: AKind::Rmw(k), addr: a as *const _ as usize, arg: v, ret: r, order: o });
+    let new = match k {
+        Rmw::Swap => v,
+        Rmw::Add => r.wrapping_add(v),
+        Rmw::Sub => r.wrapping_sub(v),
+        Rmw::And => r & v,
+        Rmw::Or => r | v,
+        Rmw::Xor => r ^ v,
+        Rmw::Max => r.max(v),
+        Rmw::Min => r.min(v),
+    };
+    push(AOp { kind: AKind::Rmw(k), addr: a as *const _ as usize, arg: v, ret: r, order: o, old: r, new });
     r
 }
 fn l_cas(a: &AtomicUsize, c: usize, n: usize, s: Ordering, f: Ordering, weak: bool) -> Result<usize, usize> {
     let r = if weak { a.compare_exchange_weak(c, n, s, f) } else { a.compare_exchange(c, n, s, f) };
-    push(AOp { kind: AKind::Cas, addr: a as *const _ as usize, arg: n, ret: match r { Ok(v) | Err(v) => v }, order: s });
+    let (old, new) = match r {
+        Ok(v) => (v, n),
+        Err(v) => (v, v),
+    };
+    push(AOp { kind: AKind::Cas, addr: a as *const _ as usize, arg: n, ret: old, order: s, old, new });
     r
 }
 fn l_fence(o: Ordering) {
     std::sync::atomic::fence(o);
-    push(AOp { kind: AKind::Fence, addr: 0, arg: 0, ret: 0, order: o });
+    push(AOp { kind: AKind::Fence, addr: 0, arg: 0, ret: 0, order: o, old: 0, new: 0 });
 }
 static TABLE: Hooks = Hooks { load: l_load, store: l_store, rmw: l_rmw, cas: l_cas, fence: l_fence };
 
